@@ -48,7 +48,7 @@ def model_sizeof(spec, sc):
         return 0
     if k == "const":
         return len(spec[1]) if spec[2] is None else model_sizeof(spec[2], sc)
-    if k == "rebuild":
+    if k in ("rebuild", "default"):
         return model_sizeof(spec[1], sc)
     if k == "bytes":
         n = ev(spec[1])
@@ -170,8 +170,8 @@ def gen_scope(g, chain, depth, has_index, in_grange=False):
         g.labels.add("scope/" + kind)
     mval = draw(st.integers(1, 8))
     mname = g.name("m")
-    mform = draw(st.sampled_from(["plain", "plain", "const"]))
-    marker = [mname, BYTE if mform == "plain" else ["const", mval, BYTE]]
+    mform = draw(st.sampled_from(["plain", "plain", "const", "default"]))
+    marker = [mname, BYTE if mform == "plain" else (["const", mval, BYTE] if mform == "const" else ["default", BYTE, mval])]
     # members of a LazyStruct are not parsed until accessed, so (documented restriction) nothing may refer to them by name
     here = chain + [(mname if kind != "lazystruct" else None, mval)]
     hi = has_index + 1 if has_index else 0
@@ -248,9 +248,10 @@ def _finish(kind, members, values, mname, mval, mform, here):
         return ["seq", spec_members], [values.get(n) for n, _ in spec_members], here
     # fseq: focus on the marker (plain) — every other member must build from nothing
     ok = all(G.buildnone(s) for n, s in spec_members if n != mname)
-    if not ok or mform != "plain":
+    if not ok or mform == "const":
         return ["struct", spec_members], values, here
-    return ["fseq", mname, spec_members], mval, here
+    # (focus built from None when the marker is a Default: the built value differs from the supplied one)
+    return ["fseq", mname, spec_members], (mval if mform == "plain" else None), here
 
 
 def fill(spec, value, sc, mode="build"):
@@ -266,6 +267,11 @@ def cases(draw):
     g = Gen(draw, params)
     depth = draw(st.integers(1, 4))
     spec, value, _ = gen_scope(g, [], depth, 0)
+    # a keyword argument may carry the same name as a member (it lives in _params only and must never shadow the member,
+    # nor stand in for it while sizing)
+    if draw(st.integers(0, 2)) == 0:
+        params = dict(params)
+        params["m1"] = draw(st.integers(10, 12))
     value = resolve_fill(spec, value, R.top_scope(params, "build"))
     return [spec, params, value, sorted(g.labels)]
 
